@@ -84,6 +84,9 @@ def gen_node(rng, nmv, scalar_ids, depth, p_call=0.2):
         return {'t': rng.choice(['list', 'list', 'tuple']), 'of': [gen_node(rng, nmv, scalar_ids, depth + 1, p_call) for _ in range(k)]}
     if u < 0.6 and len(scalar_ids) >= 2:
         a, b = rng.sample(scalar_ids, 2)
+        if rng.random() < 0.2:
+            # a callable that fails for some positions of its point
+            return {'t': 'depx', 'op': 'inv', 'a': a}
         return {'t': 'dep', 'op': rng.choice(['rp', 'op', 'add', 'gp', 'sub']), 'a': a, 'b': b}
     return {'t': 'mv', 'id': rng.randrange(nmv)}
 
